@@ -247,6 +247,15 @@ def matrix_cases(tier, seed, stores=("local",)):
         p1, d = gen.e_set_const(p0, W)
         d.update({"position": "W2", "variant": "same_function_two_keeps_mixed_args:" + shape})
         emit("two_keeps_mixed_args:%s" % shape, p0, p1, d)
+    # D5d: a function of the non-accepted package used under an alias; the import is re-pointed to another function of that
+    # package (the using function's text does not change)
+    for pos in ("h2", "A", "C"):
+        p0 = base_program("pm%d" % k)
+        k += 1
+        p0["fns"][p0["_ids"][pos]]["ext_alias"] = "ext_helper"
+        p1 = gen.clone(p0)
+        p1["fns"][p1["_ids"][pos]]["ext_alias"] = "ext_helper_two"
+        emit("ext_alias_repointed@%s" % pos, p0, p1, {"kind": "repoint_external_alias", "fn": p0["fns"][p0["_ids"][pos]]["name"], "site": ["XA"], "position": pos})
     # D6: import forms for the cross-module references (edit = callee constant two modules away)
     for form in gen.IMPORT_FORMS:
         for layout in ("three", "deep"):
@@ -414,9 +423,11 @@ def zero_edit_cases(tier, seed, stores=("local",)):
     reordering, non-accepted edits, relocation, entry-style switches."""
     cases = []
     k = 0
-    for layout, form, *flags in (("three", "from_import"), ("one", "from_import"), ("deep", "rel_from"), ("three", "import_mod_as"), ("two", "from_import_as"), ("three", "from_import", "ext-inside"), ("deep", "from_import", "ext-inside"), ("three", "from_import", "ext-base"), ("two", "from_import_as", "ext-base")):
+    for layout, form, *flags in (("three", "from_import"), ("one", "from_import"), ("deep", "rel_from"), ("three", "import_mod_as"), ("two", "from_import_as"), ("three", "from_import", "ext-inside"), ("deep", "from_import", "ext-inside"), ("three", "from_import", "ext-base"), ("two", "from_import_as", "ext-base"), ("three", "from_import", "annotated"), ("one", "from_import", "annotated")):
         for entry_data in (False, True):
             p0 = base_program("pz%d" % k, layout=layout, import_form=form, entry_data=entry_data, ext_inside="ext-inside" in flags)
+            if "annotated" in flags:
+                p0["annotate"] = True
             k += 1
             ids = p0["_ids"]
             if "ext-base" in flags:
